@@ -133,15 +133,19 @@ def harvest_cost_vectors(recorded):
     return vecs
 
 
-def tweak(vec):
+def tweak(vec, lang="v1"):
     """same vector with distinctive machine step costs (positions 17..32 of every language's
-    parameter list: cekApply, cekBuiltin, cekConst, cekDelay, cekForce, cekLam, cekStartup, cekVar)."""
-    hit = _TWEAKED.get(id(vec))
+    parameter list: cekApply, cekBuiltin, cekConst, cekDelay, cekForce, cekLam, cekStartup,
+    cekVar), different for every language and every step kind: a simulator that picks the
+    vector of another language, or charges one step kind for another, gives other units."""
+    hit = _TWEAKED.get((id(vec), lang))
     if hit is not None and hit[0] is vec:
         return hit[1]
+    k = {"v1": 0, "v2": 1, "v3": 2}[lang]
     v = list(vec)
-    v[17:33] = [17000, 110, 16500, 105, 18000, 120, 15000, 90, 15500, 95, 19000, 130, 333, 77, 21000, 140]
-    _TWEAKED[id(vec)] = (vec, v)
+    base = [17000, 110, 16500, 105, 18000, 120, 15000, 90, 15500, 95, 19000, 130, 333, 77, 21000, 140]
+    v[17:33] = [x + (1000 * k if i % 2 == 0 else 7 * k) for i, x in enumerate(base)]
+    _TWEAKED[(id(vec), lang)] = (vec, v)
     return v
 
 
@@ -304,6 +308,7 @@ def crash_key(r):
     if "panic" in r:
         msg = r["panic"]
         loc = msg.rsplit(" @ ", 1)[-1] if " @ " in msg else ""
+        loc = re.sub(r"^.*?/crates/", "crates/", loc)  # the same key for a scratch copy of the repository
         head = msg.rsplit(" @ ", 1)[0]
         # the message up to the first value it prints (hashes, certificates, .. vary)
         head = re.split(r"[({\[\"]|: [A-Z][A-Za-z]+\(", head)[0]
@@ -531,7 +536,7 @@ def pick_cfg(rng, vecs, phase_one=None, budget=None):
     if mode == "harvested":
         costs = {l: v for l, v in vecs.items()}
     elif mode == "tweaked":
-        costs = {l: tweak(v) for l, v in vecs.items()}
+        costs = {l: tweak(v, l) for l, v in vecs.items()}
     return {"costs": costs, "cost_mode": mode, "pv": rng.pick([None, 9, 10, 11]), "budget": list(budget or rng.pick([(BIG, BIG), DEFAULT_BUDGET])),
             "slot": rng.pick([MAINNET_SLOT, [1660003200000, 0, 1000], [1596059091000, 4492800, 500]]),
             "phase_one": rng.chance(2, 3) if phase_one is None else phase_one}
@@ -581,6 +586,7 @@ def check_synthetic_base(mon, model, cfg, tx, utxos, r, apply_jobs, jid):
         # the pieces the simulator looked up are the ones the transaction designates
         if d.get("script_hash") and d["script_hash"] != s["hash"].hex():
             mon.violation("C19|lookup|wrong-script-for-redeemer", witness(tx, utxos, cfg, d.get("script_hash"), s["hash"].hex(), where))
+            continue  # what follows would judge the answers of another probe
         want_datum = cbor.data_dumps(u["datum"]).hex() if u.get("datum") is not None else None
         if "datum" in d and d["datum"] is not None and want_datum is not None:
             if cbor.data_loads(bytes.fromhex(d["datum"])) != u["datum"]:
@@ -598,7 +604,7 @@ def check_synthetic_base(mon, model, cfg, tx, utxos, r, apply_jobs, jid):
                 mon.held(("fp", s["lang"], s["kind"], s["n"], cfg.get("cost_mode"), cfg.get("pv")))
         # result kind
         kind = i["result"].get("k")
-        want_kind = {"unit": "unit", "trace": "unit", "plain_unit": "unit", "echo": "data", "echo3": "data"}.get(s["kind"])
+        want_kind = {"unit": "unit", "trace": "unit", "pvsens": "unit", "echo": "data", "echo3": "data"}.get(s["kind"])
         if want_kind and kind != want_kind:
             mon.violation("C19|result|unexpected-result-of-probe", witness(tx, utxos, cfg, i["result"], want_kind, where))
             continue
@@ -608,7 +614,10 @@ def check_synthetic_base(mon, model, cfg, tx, utxos, r, apply_jobs, jid):
         if s["kind"] == "echo":
             seen = cbor.data_loads(bytes.fromhex(i["result"]["cbor"]))
         elif s["kind"] == "echo3":
-            lst = cbor.data_loads(bytes.fromhex(i["result"]["cbor"]))["l"]
+            lst = cbor.data_loads(bytes.fromhex(i["result"]["cbor"])).get("l")
+            if not isinstance(lst, list) or len(lst) != s["arity"]:
+                mon.violation("C19|result|unexpected-result-of-probe", witness(tx, utxos, cfg, i["result"], "a list of the probe's arguments", where))
+                continue
             seen = lst[-1]
             args_seen = lst[:-1]
         elif s["kind"] == "trace":
@@ -782,7 +791,7 @@ def run_handover(mon, pool, vecs, n_txs, stream0):
         if len(model.uses) < 2:
             continue
         for mode in ("harvested", "none", "tweaked") if t % 3 == 0 else ("harvested", "none"):
-            costs = None if mode == "none" else {l: (tweak(v) if mode == "tweaked" else v) for l, v in vecs.items()}
+            costs = None if mode == "none" else {l: (tweak(v, l) if mode == "tweaked" else v) for l, v in vecs.items()}
             cfg0 = {"costs": costs, "cost_mode": mode, "pv": rng.pick([None, 9, 10, 11]), "slot": MAINNET_SLOT, "phase_one": rng.chance(1, 2)}
             tx, utxos = model.encode(None, Rng)
             per = [first_principles(u["script"]["steps"], (costs or {}).get(u["script"]["lang"]) if costs else None) for u in model.uses]
@@ -934,7 +943,7 @@ def run_failing(mon, pool, vecs, n_txs, stream0):
         else:
             kinds = {"v1": ["echo3", "unit", "fail"], "v2": ["echo3", "unit", "fail"], "v3": ["trace", "unit", "fail"]}
         model = txgen.gen_tx(rng, pool, {"n_uses": rng.range(1, 4), "kinds": kinds, "langs": langs})
-        bad = [k for k, u in enumerate(model.uses) if u["script"]["kind"] not in ("echo3", "unit", "trace") and not (u["script"]["kind"] == "echo" and u["script"]["lang"] != "v3")]
+        bad = [k for k, u in enumerate(model.uses) if u["script"]["kind"] not in ("echo3", "unit", "trace", "pvsens") and not (u["script"]["kind"] == "echo" and u["script"]["lang"] != "v3")]
         if not bad:
             continue
         cfg = pick_cfg(rng, vecs, budget=(BIG, BIG))
@@ -1003,6 +1012,30 @@ def run_special(mon, pool, vecs):
         jid = f"sp|cert|{t}"
         jobs.append(job(jid, tx, utxos, cfg, second_path=False))
         cases.append((jid, "conway-cert-v12", model, cfg, tx, utxos))
+    for t in range(12):
+        # a native script next to the Plutus scripts: as a minting policy, or locking an input
+        rng = Rng(mon.seed, 920_000 + t)
+        model = txgen.gen_tx(rng, pool, {"langs": [rng.pick(["v1", "v2", "v3"])], "n_uses": rng.range(1, 3)})
+        if not model.uses:
+            continue
+        native = [0, rng.bytes(28)]
+        nh = txgen.b224(b"\x00" + cbor.dumps(native))
+        model.native_scripts.append(native)
+        if t % 2 == 0:
+            model.mint.append((nh, [(b"native", 5)]))
+            what = "native-mint"
+        else:
+            out = txgen.gen_output(rng, model, pay=("script", nh), allow_inline=False)
+            out["datum"] = None
+            model.inputs.append({"txid": rng.bytes(32), "ix": 1, "out": out, "use": None})
+            what = "native-input"
+        model.finalize()
+        tx, utxos = model.encode(None, Rng)
+        for phase_one in (True, False):
+            cfg = pick_cfg(rng, vecs, phase_one=phase_one, budget=(BIG, BIG))
+            jid = f"sp|native|{t}|{phase_one}"
+            jobs.append(job(jid, tx, utxos, cfg, second_path=False))
+            cases.append((jid, what, model, cfg, tx, utxos))
     res = run_batched(jobs)
     mon.count("driver_jobs", len(jobs))
     for jid, what, model, cfg, tx, utxos in cases:
@@ -1015,7 +1048,14 @@ def run_special(mon, pool, vecs):
             else:
                 mon.inconc("driver")
             continue
-        if what == "unused-ref":
+        if what.startswith("native"):
+            if "ok" in r:
+                mon.held(("special", what, cfg["phase_one"]))
+            elif r.get("chain", [])[:1] == ["RequiredRedeemersMismatch"] and cfg["phase_one"]:
+                mon.violation("C19|verdict|native-script-reported-missing-by-phase-one", witness(tx, utxos, cfg, brief(r), "Ok: the native script is in the witness set; every Plutus script, datum and redeemer is present and no script fails", tag))
+            else:
+                mon.violation("C19|verdict|valid-transaction-rejected|" + "/".join(r.get("chain", [])), witness(tx, utxos, cfg, brief(r), "Ok", tag))
+        elif what == "unused-ref":
             if "ok" in r:
                 mon.held(("special", what, cfg["phase_one"]))
             elif r.get("chain", [])[:1] == ["RequiredRedeemersMismatch"]:
@@ -1025,6 +1065,77 @@ def run_special(mon, pool, vecs):
         else:
             # the ledger cannot show such a certificate to a V1/V2 script: any verdict but a crash
             mon.held(("special", what, "ok" in r))
+
+
+# ------------------------------------------------------------------ minimal witnesses of the findings
+
+
+def minimal_cases(pool, vecs):
+    """[(finding, what is expected, job)]: the smallest transaction of each finding in
+    FINDINGS.md (`run_c19.py --minimal` prints the jobs and what the driver answers)."""
+    out = []
+    harvested = {"costs": dict(vecs), "cost_mode": "harvested", "pv": None, "slot": MAINNET_SLOT, "phase_one": True, "budget": [BIG, BIG]}
+    none = dict(harvested, costs=None, cost_mode="none")
+
+    def gen(opts, stream=0):
+        base = {"noise": False, "ref_scripts": False, "share": True}
+        base.update(opts)
+        for k in range(200):
+            m = txgen.gen_tx(Rng(11, stream * 1000 + k), pool, base)
+            if len(m.uses) == base.get("n_uses", 1):
+                return m
+        raise RuntimeError("no minimal model")
+
+    m = gen({"langs": ["v3"], "n_uses": 2, "purposes": ["spend"], "kinds": {"v3": ["unit"]}, "datum_modes": ["none"]}, 1)
+    tx, utxos = m.encode(None, Rng)
+    out.append(("F1 " + KNOWN_HANDOVER, "Err OutOfExError at the first redeemer (each script costs more than 50 000 cpu)", job("F1", tx, utxos, dict(none, budget=[50_000, BIG]), second_path=False)))
+    m = gen({"langs": ["v3"], "n_uses": 1, "purposes": ["spend"], "kinds": {"v3": ["nonunit_int"]}, "datum_modes": ["none"]}, 2)
+    tx, utxos = m.encode(None, Rng)
+    out.append(("F2 C19|verdict|v3-non-unit-result-accepted|int", "Err: a Plutus V3 script must return unit, this one returns (con integer 42)", job("F2", tx, utxos, harvested, second_path=False)))
+    for k in range(400):
+        m = txgen.gen_tx(Rng(12, k), pool, {"langs": ["v3"], "n_uses": 1, "purposes": ["propose"], "kinds": {"v3": ["trace"]}, "noise": False, "ref_scripts": False})
+        acts = [p["action"] for p in m.proposals if p["action"]["kind"] == "treasury" and len(p["action"]["withdrawals"]) == 2]
+        if acts and [w[0] for w in acts[0]["withdrawals"]] != sorted([w[0] for w in acts[0]["withdrawals"]], key=m.cred_key):
+            tx, utxos = m.encode(None, Rng)
+            out.append(("F3 C19|context|v3|treasury-withdrawals-not-sorted-by-reward-account", "the withdrawals map of the proposal in ascending reward-account order (script hash before key hash, then bytes)",
+                        job("F3", tx, utxos, harvested, ctx_json=True)))
+            break
+    m = gen({"langs": ["v2"], "n_uses": 1, "purposes": ["mint"], "kinds": {"v2": ["unit"]}}, 4)
+    m.certs.append({"kind": 9, "cred": ("key", bytes(28)), "drep": ("abstain",)})
+    m.finalize()
+    tx, utxos = m.encode(None, Rng)
+    out.append(("F4 C19|crash|..unexpected certificate type in V1/V2 script context", "Err (the ledger has no V1/V2 translation of this certificate), not a panic", job("F4", tx, utxos, harvested, second_path=False)))
+    m = gen({"langs": ["v3"], "n_uses": 1, "purposes": ["mint"], "kinds": {"v3": ["unit"]}}, 5)
+    spare = pool[("v3", 1, "unit")][-1] if pool[("v3", 1, "unit")][-1]["hash"] != m.uses[0]["script"]["hash"] else pool[("v3", 1, "unit")][0]
+    m.ref_inputs.append({"txid": bytes([0xAA]) * 32, "ix": 0, "out": {"pay": ("key", bytes([1]) * 28), "stake": None, "coin": 2_000_000, "assets": [], "datum": None,
+                                                                   "script_ref": ("v3", spare["code"]), "legacy": False}})
+    m.finalize()
+    tx, utxos = m.encode(None, Rng)
+    out.append(("F5 C19|verdict|unused-reference-script-rejected-by-phase-one", "Ok: nothing needed is missing and the only script succeeds", job("F5", tx, utxos, harvested, second_path=False)))
+    m = gen({"langs": ["v3"], "n_uses": 1, "purposes": ["spend"], "kinds": {"v3": ["unit"]}, "datum_modes": ["none"]}, 6)
+    native = [0, bytes([2]) * 28]
+    m.native_scripts.append(native)
+    m.mint.append((txgen.b224(b"\x00" + cbor.dumps(native)), [(b"t", 1)]))
+    m.finalize()
+    tx, utxos = m.encode(None, Rng)
+    out.append(("F6 C19|verdict|native-script-reported-missing-by-phase-one", "Ok: the native minting policy is in the witness set, the Plutus script succeeds", job("F6", tx, utxos, harvested, second_path=False)))
+    return out
+
+
+def print_minimal():
+    recorded = harvest_tests_rs()
+    vecs = harvest_cost_vectors(recorded)
+    pjobs = txgen.pool_jobs()
+    pool, _ = txgen.build_pool(pjobs, common.run_jobs("tx-run", [{k: v for k, v in j.items() if k != "_meta"} for j in pjobs]))
+    cases = minimal_cases(pool, vecs)
+    res = common.run_jobs("tx-run", [j for _, _, j in cases])
+    for name, expected, j in cases:
+        r = res.get(j["id"], {})
+        print("==", name)
+        print("   expected:", expected)
+        b = brief(r)
+        print("   observed:", json.dumps(b)[:900])
+        print("   job:", json.dumps(j))
 
 
 # ------------------------------------------------------------------ entry points
@@ -1053,11 +1164,11 @@ def run(tier="quick", seed=0):
         return mon.result()
     rng = Rng(seed, 1)
     run_recorded(mon, recorded, vecs, rng)
-    run_synthetic(mon, pool, vecs, 1500 if quick else 20000, 10_000)
-    run_handover(mon, pool, vecs, 60 if quick else 600, 200_000)
+    run_synthetic(mon, pool, vecs, 1200 if quick else 20000, 10_000)
+    run_handover(mon, pool, vecs, 50 if quick else 600, 200_000)
     minimal_handover(mon, pool)
-    run_missing_pieces(mon, pool, vecs, 150 if quick else 2000, 300_000)
-    run_failing(mon, pool, vecs, 200 if quick else 2500, 400_000)
+    run_missing_pieces(mon, pool, vecs, 120 if quick else 2000, 300_000)
+    run_failing(mon, pool, vecs, 160 if quick else 2500, 400_000)
     run_special(mon, pool, vecs)
     out = mon.result()
     out["wall_s"] = round(time.time() - t0, 1)
@@ -1070,7 +1181,23 @@ def main(argv=None):
     ap.add_argument("--seed", type=int, default=0)
     ap.add_argument("--json", action="store_true", help="print the whole result as JSON")
     ap.add_argument("--dump", default=None, help="directory to write one witness file per violation key")
+    ap.add_argument("--minimal", action="store_true", help="print the minimal witness job of every finding in FINDINGS.md and what the driver answers")
+    ap.add_argument("--replay", default=None, help="a witness file written by --dump (or a replay file of the C19 check): run it again and print what the driver answers")
     a = ap.parse_args(argv)
+    if a.replay:
+        d = json.load(open(a.replay))
+        w = d.get("witness", d)
+        c = w["config"]
+        j = {"id": "replay", "op": "phase2", "tx": w["tx"], "utxos": w["utxos"], "cost_mdls": c.get("cost_mdls_cbor"), "budget": c["budget"], "slot": c["slot"],
+             "pv": c.get("pv"), "phase_one": c.get("phase_one", False), "second_path": True, "second_path_on_error": True, "ctx_json": False}
+        r = common.run_jobs("tx-run", [j]).get("replay")
+        print("key:     ", d.get("key"))
+        print("expected:", json.dumps(w.get("expected"))[:600])
+        print("observed:", json.dumps(brief(r)))
+        return 0
+    if a.minimal:
+        print_minimal()
+        return 0
     out = run(a.tier, a.seed)
     if a.json:
         print(json.dumps(out, default=lambda o: o.hex() if isinstance(o, bytes) else str(o)))
